@@ -262,6 +262,14 @@ pub fn run_sequence(seed: u64) -> (usize, usize, usize, [usize; 6]) {
             i += 1;
             if rng.chance(10) { x.check_all("indexed phase"); }
         }
+        // sometimes freeze further columns from the right, down into the pivot columns whose index entries
+        // went stale through row additions: freezing must move the ones that are really there
+        if rng.chance(30) {
+            let k = rng.range(1, x.first_dense().max(1));
+            let before_words = x.tail.div_ceil(64);
+            for _ in 0..k { if x.first_dense() == 0 { break; } x.freeze_last(); feat[0] += 1; }
+            if x.tail.div_ceil(64) > before_words { feat[3] += 1; }
+        }
         x.check_all("end of indexed phase");
         x.d.disable_column_access_acceleration(); x.s.disable_column_access_acceleration(); x.indexed = false;
     }
